@@ -25,6 +25,7 @@ import (
 	"github.com/olive-io/bpmn/v2/pkg/errors"
 	"github.com/olive-io/bpmn/v2/pkg/id"
 	"github.com/olive-io/bpmn/v2/pkg/tracing"
+	"github.com/olive-io/bpmn/v2/pkg/verifhook"
 )
 
 type ExclusiveNoEffectiveSequenceFlows struct {
@@ -153,6 +154,7 @@ func (gw *exclusiveGateway) run(ctx context.Context, sender tracing.ISenderHandl
 					m.response <- probeAction{
 						sequenceFlows: gw.nonDefaultSequenceFlows,
 						probeReport: func(indices []int) {
+							verifhook.Point("gw.exclusive.report")
 							gw.mch <- gatewayProbingReport{
 								result: indices,
 								flowId: m.flow.Id(),
@@ -175,6 +177,7 @@ func (gw *exclusiveGateway) NextAction(ctx context.Context, flow Flow) chan IAct
 	})
 
 	response := make(chan IAction, 1)
+	verifhook.Point("gw.exclusive.next")
 	gw.mch <- nextActionMessage{response: response, flow: flow}
 	return response
 }
